@@ -299,3 +299,21 @@ def replay(ctx, case):
         obs.stop()
     print('expected: accepted or a ValueError-family rejection; observed outcome:', st.outcome)
     print('exceptions raised inside the library (incl. swallowed):', dict(obs.raises))
+
+
+SUITE_WORKLOAD = True
+
+
+def install_generic(ctx):
+    """monitor for the repository's own suite: parse either returns or raises a ValueError-family error"""
+    def on_raise(call):
+        if call.depth == 0 and isinstance(call.args[0] if call.args else None, str):
+            ctx.decided()
+            if not isinstance(call.exc, ValueError):
+                ctx.violation('parse-raises-' + type(call.exc).__name__, {'string': call.args[0]})
+
+    def post(call):
+        if call.depth == 0:
+            ctx.decided()
+
+    ctx.eng.attach('peptacular.proforma.proforma_parser.parse', post=post, on_raise=on_raise)
